@@ -353,6 +353,7 @@ func runC08(c *Ctx) {
 	c.Floor("O8.6", "loops in provider call trees", nLoops, 10)
 	c.Floor("O8.1", "limit/passes comparisons in provider call trees", nTests, 12)
 	c08Delivery(c, provs)
+	c08EachBoundOnItsOwn(c, provs)
 	c08CtxErrors(c, provs)
 }
 
@@ -1536,4 +1537,198 @@ func throughGetter(v ssa.Value) ssa.Value {
 		}
 	}
 	return v
+}
+
+// ---- O8.9: each configured bound is enforced on its own
+
+// boundNonZeroCond evaluates a branch condition under the assumption that every Limit/Passes field read is non-zero.
+func boundNonZeroCond(cond ssa.Value, fields map[string]bool) (val, known bool) {
+	if u, ok := cond.(*ssa.UnOp); ok && u.Op == token.NOT {
+		v, k := boundNonZeroCond(u.X, fields)
+		return !v, k
+	}
+	b, ok := cond.(*ssa.BinOp)
+	if !ok {
+		return false, false
+	}
+	isBound := func(v ssa.Value) bool {
+		for _, r := range Roots(v, false) {
+			fv, _ := FieldOf(Strip(r))
+			if fv == nil || !fields[fv.Name()] {
+				return false
+			}
+		}
+		return len(Roots(v, false)) > 0
+	}
+	x, y, op := b.X, b.Y, b.Op
+	if k, isC := ConstInt(x); isC && k == 0 {
+		x, y, op = y, x, FlipOp(op)
+	}
+	if k, isC := ConstInt(y); !isC || k != 0 || !isBound(x) {
+		return false, false
+	}
+	switch op { // x op 0 with x != 0 (and, for the signed fields, x > 0: validated min=0)
+	case token.EQL, token.LEQ, token.LSS:
+		return false, true
+	case token.NEQ, token.GTR:
+		return true, true
+	}
+	return false, false
+}
+
+// boundsMayReach: the Limit/Passes fields the value may derive from when both are non-zero (phi edges from
+// blocks that are unreachable under that assumption do not count).
+func boundsMayReach(fn *ssa.Function, v ssa.Value, fields map[string]bool) map[string]bool {
+	feasible := map[*ssa.BasicBlock]bool{}
+	edge := map[[2]*ssa.BasicBlock]bool{}
+	var walk func(b *ssa.BasicBlock)
+	walk = func(b *ssa.BasicBlock) {
+		if feasible[b] {
+			return
+		}
+		feasible[b] = true
+		succs := Succs(b)
+		if iff, ok := b.Instrs[len(b.Instrs)-1].(*ssa.If); ok && len(b.Succs) == 2 {
+			if val, known := boundNonZeroCond(iff.Cond, fields); known {
+				if val {
+					succs = []*ssa.BasicBlock{b.Succs[0]}
+				} else {
+					succs = []*ssa.BasicBlock{b.Succs[1]}
+				}
+			}
+		}
+		for _, s := range succs {
+			edge[[2]*ssa.BasicBlock{b, s}] = true
+			walk(s)
+		}
+	}
+	if len(fn.Blocks) > 0 {
+		walk(fn.Blocks[0])
+	}
+	out := map[string]bool{}
+	seen := map[ssa.Value]bool{}
+	var visit func(v ssa.Value)
+	visit = func(v ssa.Value) {
+		if v == nil || seen[v] {
+			return
+		}
+		seen[v] = true
+		if fv, _ := FieldOf(Strip(v)); fv != nil && fields[fv.Name()] {
+			out[fv.Name()] = true
+			return
+		}
+		switch x := v.(type) {
+		case *ssa.Phi:
+			for i, e := range x.Edges {
+				if x.Parent() == fn && !edge[[2]*ssa.BasicBlock{x.Block().Preds[i], x.Block()}] {
+					continue
+				}
+				visit(e)
+			}
+		case *ssa.BinOp:
+			visit(x.X)
+			visit(x.Y)
+		case *ssa.Convert:
+			visit(x.X)
+		case *ssa.ChangeType:
+			visit(x.X)
+		case *ssa.UnOp:
+			if a, ok := x.X.(*ssa.Alloc); ok && x.Op == token.MUL {
+				for _, st := range StoresTo(a) {
+					if st.Parent() != fn || feasible[st.Block()] {
+						visit(st.Val)
+					}
+				}
+				return
+			}
+			visit(x.X)
+		case *ssa.Call:
+			if bi, ok := x.Call.Value.(*ssa.Builtin); ok && (bi.Name() == "min" || bi.Name() == "max") {
+				for _, a := range x.Call.Args {
+					visit(a)
+				}
+			}
+		}
+	}
+	visit(v)
+	return out
+}
+
+func c08EachBoundOnItsOwn(c *Ctx, provs []*provider) {
+	c.Rule("O8.9", "each bound is enforced on its own: a provider whose Run tree reads both a Limit and a Passes setting delivers min(limit, passes x entries) entries, so with both set (non-zero) the delivery counter is compared with a value that may come from Limit and with a value that may come from Passes - a comparison with the field itself (the form of every decoder), or with a derived bound (a total computed up front) that still depends on that field when the other one is set too")
+	// limit / passesLimit: the fields in which lib/ioutil2's multi-pass reader and the grpc provider keep the setting they are given
+	fields := map[string]bool{"Limit": true, "Passes": true, "limit": true, "passesLimit": true}
+	canon := map[string]string{"Limit": "Limit", "limit": "Limit", "Passes": "Passes", "passesLimit": "Passes"}
+	n := 0
+	for _, pr := range provs {
+		reads := map[string]bool{}
+		direct := map[string]bool{}
+		derived := map[string]bool{}
+		// a bound handed to a helper object of another pandora package (ioutil2.NewMultiPassReader(source, Passes)) is
+		// enforced by that object's methods, which run behind a library interface (io.Reader): they belong to the tree
+		tree := append([]*ssa.Function{}, pr.Tree...)
+		inTree := map[*ssa.Function]bool{}
+		for _, fn := range tree {
+			inTree[fn] = true
+		}
+		for _, fn := range pr.Tree {
+			EachInstr(fn, func(in ssa.Instruction) {
+				cc := CC(in)
+				if cc == nil || cc.StaticCallee() == nil || cc.StaticCallee().Pkg == nil || !IsPandora(cc.StaticCallee().Pkg.Pkg.Path()) {
+					return
+				}
+				for _, a := range cc.Args {
+					if fv, _ := FieldOf(Strip(a)); fv != nil && fields[fv.Name()] {
+						for _, g := range PkgFuncs(cc.StaticCallee().Pkg) {
+							if !inTree[g] && IsProdFile(c.P.File(g.Pos())) {
+								inTree[g] = true
+								tree = append(tree, g)
+							}
+						}
+					}
+				}
+			})
+		}
+		for _, fn := range tree {
+			EachInstr(fn, func(in ssa.Instruction) {
+				if v, ok := in.(ssa.Value); ok {
+					if fv, _ := FieldOf(v); fv != nil && fields[fv.Name()] {
+						if _, isStore := in.(*ssa.Store); !isStore {
+							reads[canon[fv.Name()]] = true
+						}
+					}
+				}
+			})
+			for _, lt := range limitTests(fn, fields) {
+				direct[canon[lt.Field]] = true
+			}
+			for _, b := range fn.Blocks {
+				iff, ok := b.Instrs[len(b.Instrs)-1].(*ssa.If)
+				if !ok {
+					continue
+				}
+				f := CondFact(iff.Cond, true).Canon()
+				if f.Y == nil || (f.Op != token.LSS && f.Op != token.LEQ) {
+					continue
+				}
+				for _, side := range []ssa.Value{f.X, f.Y} {
+					if _, isC := ConstInt(side); isC {
+						continue
+					}
+					for name := range boundsMayReach(fn, side, fields) {
+						derived[canon[name]] = true
+					}
+				}
+			}
+		}
+		if !reads["Limit"] || !reads["Passes"] {
+			continue
+		}
+		n++
+		for _, name := range []string{"Limit", "Passes"} {
+			c.Check(direct[name] || derived[name], "O8.9", fk(pr.Run)+":"+name+"-enforced-when-both-bounds-are-set", pr.Run.Pos(),
+				fmt.Sprintf("the Run tree reads Limit and Passes; a counter is compared with %s itself: %v; with a bound that may derive from %s when both are non-zero: %v", name, direct[name], name, derived[name]))
+		}
+	}
+	c.Floor("O8.9", "providers whose Run tree reads both Limit and Passes", n, 4)
 }
